@@ -633,6 +633,76 @@ pub fn gen_impl_methods(files: &BTreeMap<String, syn::File>, out: &mut String) {
     writeln!(out, "\n(* every trait impl for a type built from GenericArray / GenericArrayIter: (file, impl header, the methods\n   and consts it defines itself -- every other method of the trait is the default one) *)\nDefinition gen_impl_methods : list (String.string * String.string * list String.string) :=\n  [{}]%string.", rows.join(";\n   ")).unwrap();
 }
 
+/// for every trait impl whose Self type is built from GenericArray / GenericArrayIter: the bounds the impl
+/// places on its type parameters (generic-parameter bounds and where-predicates, normalised and sorted)
+pub fn gen_impl_bounds(files: &BTreeMap<String, syn::File>, out: &mut String) {
+    let norm = |s: String| -> String {
+        let mut t: String = s.split_whitespace().collect::<Vec<_>>().join("");
+        for lt in ["'a", "'de"] {
+            t = t.replace(lt, "");
+        }
+        t
+    };
+    let mut rows = vec![];
+    for fname in ["lib.rs", "impls.rs", "iter.rs", "sequence.rs", "impl_alloc.rs", "impl_serde.rs", "impl_zeroize.rs", "impl_const_default.rs", "hex.rs"] {
+        let Some(file) = files.get(fname) else { continue };
+        for it in &file.items {
+            let Item::Impl(im) = it else { continue };
+            let Some((neg, tr, _)) = &im.trait_ else { continue };
+            let st = im.self_ty.to_token_stream().to_string();
+            if !st.contains("GenericArray") {
+                continue;
+            }
+            let self_txt = norm(st);
+            let tr_txt = norm(tr.to_token_stream().to_string());
+            let mut bounds: Vec<String> = vec![];
+            for gp in &im.generics.params {
+                match gp {
+                    syn::GenericParam::Type(tp) => {
+                        for b in &tp.bounds {
+                            if matches!(b, syn::TypeParamBound::Lifetime(_)) {
+                                continue;
+                            }
+                            bounds.push(format!("{}:{}", tp.ident, norm(b.to_token_stream().to_string())));
+                        }
+                    }
+                    syn::GenericParam::Lifetime(_) => {}
+                    syn::GenericParam::Const(c) => bounds.push(format!("const {}", c.ident)),
+                }
+            }
+            if let Some(wc) = &im.generics.where_clause {
+                for pr in &wc.predicates {
+                    match pr {
+                        syn::WherePredicate::Type(pt) => {
+                            let lhs = norm(pt.bounded_ty.to_token_stream().to_string());
+                            for b in &pt.bounds {
+                                bounds.push(format!("{}:{}", lhs, norm(b.to_token_stream().to_string())));
+                            }
+                        }
+                        syn::WherePredicate::Lifetime(_) => {}
+                        other => {
+                            println!("ERROR GenSigs.v impl_bounds {}: unsupported where-predicate `{}`", fname, other.to_token_stream());
+                        }
+                    }
+                }
+            }
+            bounds.sort();
+            let unsafety = if im.unsafety.is_some() { "unsafe " } else { "" };
+            let negs = if neg.is_some() { "!" } else { "" };
+            rows.push(format!(
+                "(\"{}\", \"{}{}{} for {}\", [{}])",
+                fname,
+                unsafety,
+                negs,
+                tr_txt,
+                self_txt,
+                bounds.iter().map(|n| format!("\"{}\"", n)).collect::<Vec<_>>().join("; ")
+            ));
+        }
+    }
+    writeln!(out, "\n(* every trait impl for a type built from GenericArray / GenericArrayIter: (file, impl header, the bounds on\n   its type parameters: generic-parameter bounds and where-predicates, normalised, sorted) *)\nDefinition gen_impl_bounds : list (String.string * String.string * list String.string) :=\n  [{}]%string.", rows.join(";\n   ")).unwrap();
+}
+
 // ------------------------------------------------------------------ impl_tuple! bodies (T1)
 
 /// the two `fn from(..) -> Self { .. }` bodies inside macro_rules! impl_tuple, as normalised token text
